@@ -179,6 +179,7 @@ fn cmd_run(a: &Args) -> i32 {
     let tier = a.opts.get("tier").cloned().or_else(|| std::env::var("VERIF_TIER").ok()).unwrap_or_else(|| "quick".into());
     let tier = if tier == "thorough" { "thorough" } else { "quick" };
     let seed = verif_seed(a);
+    gen::DEEP.store(tier == "thorough", Ordering::Relaxed);
     let (def_runs, budget) = tier_runs(&property, tier);
     let runs: u64 = a.opts.get("runs").and_then(|s| s.parse().ok()).unwrap_or(def_runs);
     let jobs: usize = a.opts.get("jobs").and_then(|s| s.parse().ok()).unwrap_or(16);
@@ -456,6 +457,7 @@ fn cmd_replay(a: &Args) -> i32 {
 /// twice in fresh processes at different worker counts and diffs the output.
 fn cmd_digests(a: &Args) -> i32 {
     let property = a.pos.get(0).expect("usage: pcsim digests <PROPERTY> --runs N");
+    gen::DEEP.store(a.opts.get("tier").map_or(false, |t| t == "thorough"), Ordering::Relaxed);
     let seed = verif_seed(a);
     let runs: u64 = a.opts.get("runs").and_then(|s| s.parse().ok()).unwrap_or(64);
     let jobs: usize = a.opts.get("jobs").and_then(|s| s.parse().ok()).unwrap_or(16);
@@ -473,6 +475,7 @@ fn cmd_digests(a: &Args) -> i32 {
 
 fn cmd_show(a: &Args) -> i32 {
     let property = a.pos.get(0).expect("usage: pcsim show <PROPERTY> <index>");
+    gen::DEEP.store(a.opts.get("tier").map_or(false, |t| t == "thorough"), Ordering::Relaxed);
     let index: u64 = a.pos.get(1).and_then(|s| s.parse().ok()).unwrap_or(0);
     let seed = verif_seed(a);
     seams::install_panic_hook();
@@ -488,6 +491,7 @@ fn cmd_show(a: &Args) -> i32 {
 
 /// C18 cross-variant lines: "<index> <scheme> <digest> <parts>" for the first N runs of the batch.
 fn cmd_c18_digests(a: &Args) -> i32 {
+    gen::DEEP.store(a.opts.get("tier").map_or(false, |t| t == "thorough"), Ordering::Relaxed);
     let seed = verif_seed(a);
     let runs: u64 = a.opts.get("runs").and_then(|s| s.parse().ok()).unwrap_or(64);
     let jobs: usize = a.opts.get("jobs").and_then(|s| s.parse().ok()).unwrap_or(4);
